@@ -207,7 +207,7 @@ def replay_call(path, func, call, params):
         "    tb = traceback.extract_tb(e.__traceback__)\n"
         "    res['where'] = [f'{f.filename}:{f.lineno}' for f in tb[-3:]]\n"
         "    # a signature mismatch raised at a call made by the harness itself is a harness error, not a property violation\n"
-        "    if isinstance(e, (TypeError, AttributeError, ImportError)) and tb and '/verif/' in tb[-1].filename:\n"
+        "    if isinstance(e, (TypeError, AttributeError, ImportError)) and tb and ('/verif/' in tb[-1].filename or tb[-1].filename == '<string>'):\n"
         "        res['ok'] = None; res['outcome'] = 'harness-error'\n"
         f"k = getattr(H, 'finding_key_{func}', None)\n"
         "if k is not None and not res['ok']:\n"
